@@ -144,13 +144,57 @@ func derive(ctx context.Context, o Op) context.Context {
 	}
 }
 
+// mark says where in a context's document the rendering context passed through a further CSS middleware, and which
+// component classes that middleware registers (what NewCSSHandler keeps of its arguments).
+type mark struct {
+	Off int
+	IDs []string
+}
+
+// ctxRec is what the further middlewares of one rendering context leave behind.
+type ctxRec struct {
+	Marks  []mark
+	Sheets []string // body of each one's stylesheet endpoint
+}
+
+func compIDs(classes []Class) []string {
+	var ids []string
+	for _, k := range classes {
+		if k.Kind == "K" {
+			ids = append(ids, k.C.ID)
+		}
+	}
+	return ids
+}
+
+// throughMiddleware sends a page request that carries ctx through a new templ.NewCSSMiddleware(next, classes...) with
+// its own stylesheet path (as a second component library's middleware would have) and returns the context its Next
+// handler sees, and what its stylesheet endpoint serves.
+func throughMiddleware(ctx context.Context, classes []Class, n int) (context.Context, string) {
+	got := ctx
+	next := http.HandlerFunc(func(w http.ResponseWriter, r *http.Request) { got = r.Context() })
+	m := templ.NewCSSMiddleware(next, classVals(Cfg{Classes: classes})...)
+	m.Path = fmt.Sprintf("/styles/lib%d.css", n)
+	m.ServeHTTP(httptest.NewRecorder(), httptest.NewRequest("GET", "/", nil).WithContext(ctx))
+	rec := httptest.NewRecorder()
+	m.ServeHTTP(rec, httptest.NewRequest("GET", m.Path, nil))
+	return got, rec.Body.String()
+}
+
 // aliases are the Go contexts of one rendering context; do performs one history entry through the chosen one.
 type aliases []context.Context
 
-func (a *aliases) do(w *world, wr io.Writer, co COp) error {
+func (a *aliases) do(w *world, wr *bytes.Buffer, co COp, rec *ctxRec) error {
 	via := co.Op.Via
 	if via < 0 || via >= len(*a) {
 		via = 0
+	}
+	if co.Op.Tag == "D" && co.Op.Text == "mw" {
+		ctx, sheet := throughMiddleware((*a)[via], co.Op.Classes, len(rec.Sheets)+1)
+		rec.Marks = append(rec.Marks, mark{Off: wr.Len(), IDs: compIDs(co.Op.Classes)})
+		rec.Sheets = append(rec.Sheets, sheet)
+		*a = append(*a, ctx)
+		return nil
 	}
 	if co.Op.Tag == "D" {
 		*a = append(*a, derive((*a)[via], co.Op))
@@ -164,6 +208,7 @@ func (a *aliases) do(w *world, wr io.Writer, co COp) error {
 type implOut struct {
 	Docs   []string // one document per context
 	Sheets []string // stylesheet endpoint body per context ("" without middleware)
+	Later  []ctxRec // per context: the further middlewares it passed through
 	Err    string
 }
 
@@ -235,6 +280,7 @@ func runImpl(h Hist) (out implOut) {
 		bufs[i] = new(bytes.Buffer)
 	}
 	out.Sheets = make([]string, len(h.Cfgs))
+	out.Later = make([]ctxRec, len(h.Cfgs))
 	var mu sync.Mutex
 	setErr := func(e string) {
 		mu.Lock()
@@ -267,7 +313,7 @@ func runImpl(h Hist) (out implOut) {
 					if co.Ctx != k {
 						continue
 					}
-					if err := al.do(w, bufs[k], co); err != nil {
+					if err := al.do(w, bufs[k], co, &out.Later[k]); err != nil {
 						setErr(err.Error())
 						return
 					}
@@ -294,7 +340,7 @@ func runImpl(h Hist) (out implOut) {
 		out.Sheets[i] = in.serve(c, func(ctx context.Context) { ctxs[i] = aliases{ctx} })
 	}
 	for _, co := range h.Ops {
-		if err := ctxs[co.Ctx].do(w, bufs[co.Ctx], co); err != nil {
+		if err := ctxs[co.Ctx].do(w, bufs[co.Ctx], co, &out.Later[co.Ctx]); err != nil {
 			setErr(err.Error())
 			break
 		}
@@ -311,8 +357,24 @@ var reAttr = regexp.MustCompile(` (class|onclick)="([^"]*)"`)
 // readBack lists, in document order, what a document defines and uses.
 // Returned as tokens of coq/extract/X12.v's p_iev (closed by "."), and as lines comparable with the model's log.
 func readBack(doc string) (toks []string, defLines []string, useLines []string) {
+	return readBackM(doc, nil)
+}
+
+// readBackM also places the registrations of the further middlewares (no bytes of their own) where the document stood
+// when the context passed through them; they are listed among the definition lines ("G c id").
+func readBackM(doc string, marks []mark) (toks []string, defLines []string, useLines []string) {
 	pos := 0
+	place := func() {
+		for len(marks) > 0 && marks[0].Off <= pos {
+			for _, id := range marks[0].IDs {
+				toks = append(toks, "G", "c", id)
+				defLines = append(defLines, "G c "+id)
+			}
+			marks = marks[1:]
+		}
+	}
 	for pos < len(doc) {
+		place()
 		rest := doc[pos:]
 		switch {
 		case strings.HasPrefix(rest, "<script"):
@@ -379,6 +441,8 @@ func readBack(doc string) (toks []string, defLines []string, useLines []string) 
 			pos++
 		}
 	}
+	pos = len(doc)
+	place()
 	toks = append(toks, ".")
 	return
 }
